@@ -52,7 +52,8 @@ COMMENTS = {'none': None,
             'utf8': 'Zoë Łukasz 鍵'.encode('utf-8'),
             'spaces': b'my key  with   spaces (work laptop) "q" a:b \\',
             'nonutf8': b'caf\xe9 \xff\xfe\x80 key',
-            'edgews': b'  padded comment \t'}
+            'edgews': b'  padded comment \t',
+            'long': b' '.join(b'word%03d' % i for i in range(40))}
 
 PASS_RIGHT = ['right-pw', b'right-bytes-pw', 'pässwörd-ü']
 PASS_WRONG = ['wrong-pw', b'right-bytes-pX', 'pässwörd-u']
